@@ -43,3 +43,9 @@ Proof.
   - injection H as <-. unfold GenLoop.max_slots, GenLoop.slot_map_extra in *. lia.
   - destruct (cur_step size i o) as [k|] eqn:E; [|discriminate]. exact (IH size k j Hs (cur_step_bound _ _ _ _ Hi E) H).
 Qed.
+
+(* the state machine's limits as the source has them now: runFSM counts its free-slot counter down from SlotMap::MAX_SLOTS, a state
+   keeps at most FiniteStateMachine::MAX_RULES rules (the translator checks both statements are still there) *)
+From GR Require Model.FsmModel.
+Lemma gen_fsm_consts_agree : GenLoop.max_slots = N.of_nat FsmModel.MAX_SLOTS /\ GenLoop.max_rules = N.of_nat FsmModel.MAX_RULES.
+Proof. split; reflexivity. Qed.
